@@ -160,6 +160,8 @@ class DependsWorld:
                 if len(m['deps']) > 1:
                     for j in range(len(m['deps'])):
                         yield {**case, 'cfg': {**cfg, 'methods': cfg['methods'][:i] + [{**m, 'deps': m['deps'][:j] + m['deps'][j + 1:]}] + cfg['methods'][i + 1:]}}
+                if m.get('async'):
+                    yield {**case, 'cfg': {**cfg, 'methods': cfg['methods'][:i] + [{k: v for k, v in m.items() if k != 'async'}] + cfg['methods'][i + 1:]}}
             ops = case['ops']
             for i, op in enumerate(ops):
                 for key in ('n', 'at', 'n1', 'n2'):
@@ -191,6 +193,15 @@ class DependsWorld:
     # ------------------------------------------------------------------------------------------ C06 execution
     def run(self, case):
         if case['prop'] == 'C07':
+            if any(m.get('async') for m in case['cfg']['methods']):
+                # coroutine methods are scheduled on the running loop: a virtual loop stepped by the world
+                from ..simloop import SimLoop
+                loop = SimLoop()
+                loop.install()
+                try:
+                    return self.run07(case, loop)
+                finally:
+                    loop.shutdown()
             return self.run07(case)
         import param
         out = Outcome()
@@ -413,6 +424,8 @@ class DependsWorld:
             if rng.random() < 0.4 and len(deps) > 1:
                 rng.shuffle(deps)          # declaration order matters to the grouping
             methods.append({'deps': deps, 'own': rng.random() < 0.2})
+            if rng.random() < 0.2:
+                methods[-1]['async'] = True
         if 'shared_subobject' in avoid:
             for m in methods:
                 m['deps'] = m['deps'][:1]
@@ -422,8 +435,11 @@ class DependsWorld:
         ops = []
         hows = [('any', 3), ('equal', 2), ('first', 1.5), ('later', 2)]
         for _ in range(n_ops):
-            k = weighted(rng, [('attach', 6), ('detach', 1.0), ('leaf', 6), ('leaf2', 1.5), ('swap2', 2 if len(slots) > 1 else 0), ('own', 0.7)])
-            if k == 'attach':
+            k = weighted(rng, [('attach', 6), ('detach', 1.0), ('leaf', 6), ('leaf2', 1.5), ('swap2', 2 if len(slots) > 1 else 0), ('own', 0.7),
+                               ('drain', 1.0 if any(m.get('async') for m in methods) else 0)])
+            if k == 'drain':
+                ops.append({'op': 'drain'})
+            elif k == 'attach':
                 ops.append({'op': 'attach', 'at': rng.randint(0, cfg['pool']), 'slot': rng.choice(slots), 'n': rng.randrange(cfg['pool']),
                             'how': weighted(rng, hows)})
             elif k == 'detach':
@@ -440,11 +456,30 @@ class DependsWorld:
                 ops.append({'op': 'own'})
         return {'cfg': cfg, 'ops': ops}
 
-    def run07(self, case):
+    def run07(self, case, loop=None):
         import param
         out = Outcome()
         cfg = case['cfg']
         log = []
+        gates = []      # futures the running coroutine methods wait on (released by 'drain')
+
+        def settle():
+            """let every task the operation scheduled run its first segment (the coroutine method starts, logs, suspends)"""
+            if loop is not None:
+                for _ in range(8):
+                    n = loop.ready_count()
+                    if not n:
+                        break
+                    for _ in range(n):
+                        loop.step()
+
+        def release():
+            for g in gates:
+                if not g.done():
+                    g.set_result(None)
+            del gates[:]
+            if loop is not None:
+                loop.drain(5000)
         SLOTS = tuple(cfg.get('slots', ['sub']))
 
         class Node(param.Parameterized):
@@ -455,8 +490,15 @@ class DependsWorld:
             alt = param.Parameter(default=None)
         ns = {'own': param.Parameter(default=0), 'sub': param.Parameter(default=None), 'alt': param.Parameter(default=None)}
         for mi, m in enumerate(cfg['methods']):
-            def body(self, _mi=mi):
-                log.append(_mi)
+            if m.get('async'):
+                async def body(self, _mi=mi):
+                    log.append(_mi)
+                    g = loop.create_future()
+                    gates.append(g)
+                    await g             # stays pending across later operations, until a 'drain'
+            else:
+                def body(self, _mi=mi):
+                    log.append(_mi)
             body.__name__ = f"m{mi}"
             deps = list(m['deps']) + (['own'] if m.get('own') else [])
             ns[f"m{mi}"] = param.depends(*deps, watch=True)(body)
@@ -526,6 +568,7 @@ class DependsWorld:
             del log[:]
             for p in ('x', 'y', 'z'):
                 setattr(pool[n], p, leaf[n][p])
+            settle()
             if log:
                 out.violations.append(('C07.silent', 0, f"writing leaves of N{n}, which is not attached under the parent, ran methods {log}"))
                 return False
@@ -557,6 +600,7 @@ class DependsWorld:
             except Exception as e:      # noqa
                 out.violations.append(('C07.exception', 0, f"attaching the initial sub-objects raised {type(e).__name__}: {str(e)[:200]}"))
                 return out
+            settle()
             del log[:]
         states = []
         for step, op in enumerate(case['ops'], 1):
@@ -634,6 +678,12 @@ class DependsWorld:
                     del log[:]
                     parent.own = counter[0]
                     own_changed = True
+                elif k == 'drain':
+                    del log[:]
+                    if gates:
+                        out.stats['probe.coroutine_methods_completed_late'] += 1
+                    release()
+                settle()
             except Exception as e:      # noqa
                 out.violations.append(('C07.exception', step, f"{desc} raised {type(e).__name__}: {str(e)[:200]}"))
                 break
@@ -677,6 +727,12 @@ class DependsWorld:
                                                              f"{self.wcount(pool[n]) - base[n]} watcher(s)"))
                     break
             states.append(f"{sorted((str(h), v) for h, v in att.items() if v is not None)}|{k}")
+        if loop is not None and not out.violations:
+            release()
+            if loop.exc_reports:
+                out.violations.append(('C07.exception', len(case['ops']) + 1, f"a scheduled coroutine method failed: {loop.exc_reports[:2]}"))
+            if any(m.get('async') for m in cfg['methods']):
+                out.stats['probe.coroutine_method'] += 1
         if poked_detached or any(op['op'] == 'detach' for op in case['ops']):
             out.sig = ','.join(self.skeleton(case))
         shared = any(len({d.rsplit('.', 1)[0] for d in m['deps']}) < len(m['deps']) for m in cfg['methods'])
